@@ -35,7 +35,7 @@ SPEC = dict(
     assumptions=["bvmon/ref_v1.py renders/reads the legacy parts from their documented composites",
                  "{iso_week}/{us_week} and the zero-padded {MM}/{PPP}/{BBB} families are outside the statement"],
     required=["roundtrips", "test_accepted", "chain_steps", "pycalver_string_order_checks", "updates_ok",
-              "dispatch_checked", "short_roundtrips", "legacy_pin_date_cases", "follow_up_updates"],
+              "dispatch_checked", "short_roundtrips", "legacy_pin_date_cases", "follow_up_updates", "show_environ_checked"],
     anchors=[("v1version", "parse_version_info"), ("v1version", "format_version"), ("v1version", "incr"),
              ("cli", "incr_dispatch"), ("v1patterns", "_compile_pattern_re")],
 )
@@ -318,6 +318,16 @@ def run_update(ctx, case, R):
         cur = sres.stdout_value("Current Version: ")
         if cur != new:
             ctx.violation("other:show_disagrees", f"{p!r}: show says {cur!r} after update to {new!r}", case=case)
+        # the machine-readable form of `show` reads the same configuration through the same (legacy) engine
+        for flag in ("--environ", "--env"):
+            eres = harness.invoke(["show", "--no-fetch", flag], cwd=dpath)
+            ctx.counters["show_environ_checked"] += 1
+            eng3 = contracts.engines_used(eres.trace)
+            if eres.crash or eres.exit_code != 0 or eres.stdout_value("CURRENT_VERSION=") != new:
+                ctx.violation("show_environ_reads_legacy_version_with_new_engine" if (eres.crash and "PatternError" in eres.crash)
+                              else "other:show_environ_fails", f"show {flag} on {p!r} {new!r}: exit {eres.exit_code} "
+                              f"{(eres.crash or '')[-200:]} engines={eng3}", case=case)
+                break
         # further updates on what the engine itself wrote (its own {pep440_version} text must be found again)
         prev = new
         for k in range(2):
